@@ -135,3 +135,8 @@ def scale(c, rm):
     pos = [x for x in a if x > num.EPS[c.ty]]
     return max([1] + [1 / x for x in pos]) if c.mop != "proj" else 1
 
+
+def gen_q(rng, tier):
+    """exact-rational cases: see qgen.py"""
+    from . import qgen
+    return qgen.unary(rng, tier)
